@@ -343,8 +343,8 @@ Qed.
 
 Lemma b91_digits_lt91 x : wf_bytes x -> Forall (fun d => d < 91) (b91_digits x).
 Proof.
-  intros W. pose proof (rel_final x W) as R. unfold b91_digits.
-  destruct (fold_left b91_enc_step x (0, 0, [])) as [[q n] out].
+  intros W. pose proof (rel_final x W) as R. unfold b91_digits; rewrite ?frev_rev.
+  destruct (fold_left b91_enc_step x (0, 0, [])) as [[q n] out]. rewrite ?frev_rev.
   destruct R as (dq & dn & dout & pend & HF & HX & HW & HD & Hen & Heq & Hdn & Hdq & HL & HN).
   assert (Hq : q < 8281).
   { assert (2 ^ n <= 2 ^ 13) by (apply N.pow_le_mono_r; [discriminate | assumption]).
@@ -380,10 +380,10 @@ Proof. destruct l; cbn [nbl]; [reflexivity | lia]. Qed.
 
 Lemma b91_roundtrip x : wf_bytes x -> b91_decode (b91_encode x) = Ok x.
 Proof.
-  intros W. unfold b91_decode, b91_encode.
+  intros W. unfold b91_decode, b91_encode; rewrite ?frev_rev.
   rewrite unmap_lookup by (apply b91_digits_lt91; assumption).
-  pose proof (rel_final x W) as R. unfold b91_digits.
-  destruct (fold_left b91_enc_step x (0, 0, [])) as [[q n] out].
+  pose proof (rel_final x W) as R. unfold b91_digits; rewrite ?frev_rev.
+  destruct (fold_left b91_enc_step x (0, 0, [])) as [[q n] out]. rewrite ?frev_rev.
   destruct R as (dq & dn & dout & pend & HF & HX & HW & HD & Hen & Heq & Hdn & Hdq & HL & HN).
   fold dinit.
   destruct (nbl_mult pend) as [m Hm].
@@ -410,13 +410,13 @@ Proof.
         rewrite emit1 by lia.
         destruct (peel pend D k' 0 HW ltac:(lia) ltac:(lia) HLD) as (rest & Hp & Wr & Nr & Lr).
         assert (rest = []) by (apply nbl_0; lia). subst rest.
-        subst x. rewrite Hp. cbn [rev]. reflexivity.
+        subst x. rewrite ?frev_rev. rewrite Hp. cbn [rev]. reflexivity.
       * rewrite emit2 by lia.
         destruct (peel pend D k' 0 HW ltac:(lia) ltac:(lia) HLD) as (rest & Hp & Wr & Nr & Lr).
         destruct (peel rest (D / 256) (k' - 8) 0 Wr ltac:(lia) ltac:(lia) Lr)
           as (rest2 & Hp2 & Wr2 & Nr2 & Lr2).
         assert (rest2 = []) by (apply nbl_0; lia). subst rest2.
-        subst x. rewrite Hp, Hp2. cbn [rev]. rewrite <- !app_assoc. reflexivity.
+        subst x. rewrite ?frev_rev. rewrite Hp, Hp2. cbn [rev]. rewrite <- !app_assoc. reflexivity.
     + (* one final digit *)
       apply orb_false_iff in Hc. destruct Hc as [H7 H90].
       apply N.ltb_ge in H7. apply N.ltb_ge in H90.
@@ -427,9 +427,9 @@ Proof.
       assert (HLD : le pend = D + 2 ^ 8 * 0) by (rewrite HL; unfold D; ring).
       destruct (peel pend D 8 0 HW ltac:(lia) ltac:(lia) HLD) as (rest & Hp & Wr & Nr & Lr).
       assert (rest = []) by (apply nbl_0; lia). subst rest.
-      subst x. rewrite Hp. cbn [rev]. reflexivity.
+      subst x. rewrite ?frev_rev. rewrite Hp. cbn [rev]. reflexivity.
   - rewrite HF. assert (pend = []) by (apply nbl_0; lia). subst pend.
-    rewrite app_nil_r in HX. subst x. reflexivity.
+    rewrite app_nil_r in HX. subst x. rewrite ?frev_rev. reflexivity.
 Qed.
 
 (* ------------------------------------------------------------------ *)
@@ -460,9 +460,9 @@ Qed.
 
 Lemma b91_length_bound x : (13 * length (b91_encode x) <= 16 * length x + 26)%nat.
 Proof.
-  unfold b91_encode, b91_digits. rewrite map_length.
+  unfold b91_encode, b91_digits. rewrite ?frev_rev, map_length.
   pose proof (enc_fold_len x (0, 0, [])) as H. cbv beta iota in H.
-  destruct (fold_left b91_enc_step x (0, 0, [])) as [[q n] out].
+  destruct (fold_left b91_enc_step x (0, 0, [])) as [[q n] out]. rewrite ?frev_rev.
   rewrite rev_length. cbn [length] in H.
   destruct (0 <? n); [destruct ((7 <? n) || (90 <? q))|]; cbn [length]; lia.
 Qed.
